@@ -221,7 +221,9 @@ theorem CInv.openEvent {lv strict : Bool} {x0 : EvId} {s : KState ℚ σ} (hc : 
   · intro c L1 hL1 hne
     rw [hS.ops_eq] at hne
     exact hc.bld_cnt c L1 (hlist c L1 hL1).2 hne
-  · intro c hm; exact ((hc.bld_own q.ev L c hL hm).1).symm
+  · intro c hm
+    obtain ⟨h1, h2⟩ := hc.bld_own q.ev L c hL hm
+    exact ⟨h1.symm, by rw [hS.ops_eq]; exact h2⟩
   · intro c
     by_cases hm : Cb.build c ∈ L
     · obtain ⟨h1, h2⟩ := hc.bld_own q.ev L c hL hm
